@@ -391,6 +391,18 @@ func (c *Client) onFrame(raw string) {
 			c.violate("C15", "b", "event-partly-applied", "client %s received data taken from a malformed event, which is to be discarded as a whole: %s", c.Name, raw)
 		}
 	}
+	// C10.b: connection ids are the gateway's: what a client is sent names its
+	// own connection by the {cid} tag only, and other connections not at all
+	s.mu.Lock()
+	for _, cid := range s.cidList {
+		if cid != "" && strings.Contains(raw, cid) {
+			s.mu.Unlock()
+			c.violate("C10", "b", "cid-sent-to-client", "client %s was sent a frame that contains a connection id (c%d): %s", c.Name, s.cidIdx[cid], trunc(raw, 300))
+			s.mu.Lock()
+			break
+		}
+	}
+	s.mu.Unlock()
 	var m map[string]json.RawMessage
 	if err := json.Unmarshal([]byte(raw), &m); err != nil {
 		c.violate("C07", "frame", "notjson", "client %s received a frame that is not a JSON object: %s", c.Name, raw)
